@@ -43,6 +43,13 @@ def gen(seed, tier):
         if r.random() < 0.1:
             f = g.corrupt(f)
         cases.append(G("C03-r%d" % i, g.decorate(f)))
+    # frames whose data bits are a multiple of the generator: the CRC is 000000, the AP field reads the address itself
+    for df in (0, 4, 5, 16, 20, 21, 11, 17, 18):
+        for k in range(4 if tier == "quick" else 40):
+            fhex, nb, a = crc_zero_frame(r, df)
+            cases.append(G("C03-q%d-%d" % (df, k), fhex))
+            if k == 0:
+                cases.append(H("C03-qh%d" % df, {}, [seg(0, [fhex]), seg(0, [g.any_frame(a)])]))
     # zero address
     cases.append(G("C03-z0", hx(short_ap(4, 0, 12345), 56)))
     cases.append(G("C03-z1", hx(df17(0, 1 << 50), 112)))
